@@ -17,6 +17,8 @@ The quantifier is "all programs": the solver's share is choosing the structures,
 """
 import re
 
+import copy
+
 import numpy
 import pandas
 from sklearn.base import BaseEstimator, ClassifierMixin, RegressorMixin, TransformerMixin
@@ -218,10 +220,11 @@ def scenario_for(cfg):
         # ---- fit on real data, then instrument
         X = pandas.DataFrame(dict(a=[1.0, 2.0, 3.0, 4.0], b=[0.5, 0.25, 4.0, 8.0], c=[10.0, 20.0, 30.0, 40.0]))
         y = numpy.array([0, 1, 0, 1])
-        data = X if cfg["schema"] == "frame" else (X.values if cfg["schema"] == "ndarray" else X)
+        data = X if cfg["schema"] == "frame" else (X.values.copy() if cfg["schema"] == "ndarray" else X)
         pipe.fit(data, y)
         methods = ["transform"] if final == 0 else (["predict", "predict_proba", "decision_function"] if final == 1 else ["predict"])
         before = {m: getattr(pipe, m)(data) for m in methods}
+        twin = copy.deepcopy(pipe)  # never instrumented
         hp.alter_pipeline_for_debugging(pipe)
         for m in methods:
             after = getattr(pipe, m)(data)
@@ -248,6 +251,15 @@ def scenario_for(cfg):
             else:
                 C.true(numpy.array_equal(numpy.asarray(dbg.inputs[key]), numpy.asarray(data)), "debug/first-step-saw-the-data")
             prev_out = dbg.outputs[key]
+        # history: the caller refills the same array / frame in place and asks again: the instrumented pipeline
+        # answers for the new content, like its never-instrumented twin
+        if isinstance(data, pandas.DataFrame):
+            data.iloc[:, :] = data.values * 2.0 + 1.0
+        else:
+            data *= 2.0
+            data += 1.0
+        for m in methods:
+            C.true(numpy.array_equal(numpy.asarray(getattr(pipe, m)(data)), numpy.asarray(getattr(twin, m)(data))), "debug/outputs-follow-the-data-on-a-second-call(same-object)", detail=m)
         # ---- pipeline2dot
         schema = data if cfg["schema"] != "list" else list(X.columns)
         dot = vz.pipeline2dot(pipe, schema)
